@@ -74,6 +74,7 @@ def run_cases(run, modname, prop_key_prefix='', setup_pyx=False, engine='P', sel
     if os.environ.get('VERIF_TIMING'):
         for res in sorted(results, key=lambda r: -r['seconds'])[:25]:
             print(f"TIMING {res['seconds']:8.1f}s {len(res['rows']):6d} rows  {res['name']}", flush=True)
+    vacuous, any_failed = [], False
     for res in results:
         if res.get('unanchored'):
             run.unanchored(f'{modname}:{res["name"]}', res['unanchored'])
@@ -85,7 +86,7 @@ def run_cases(run, modname, prop_key_prefix='', setup_pyx=False, engine='P', sel
             refuted = any(r[1] is False for r in res['rows'])
             run.oblig(res['name'] + ':canary-refuted', True if refuted else None, engine, 'z3', res['seconds'])
             if not refuted:
-                raise RuntimeError(f'canary {res["name"]} verified: harness is vacuous')
+                vacuous.append(res['name'])
             continue
         if not res['rows']:
             raise RuntimeError(f'contract case {res["name"]} generated zero obligations')
@@ -93,6 +94,7 @@ def run_cases(run, modname, prop_key_prefix='', setup_pyx=False, engine='P', sel
         for (oname, ok, eng, be, dt) in res['rows']:
             known = False
             if ok is False:
+                any_failed = True
                 f = failed.get(oname.split(':')[0]) or (res['fails'][0] if res['fails'] else None)
                 nat = f and f.get('native')
                 reproduced = bool(nat) and nat.get('ok') is False
@@ -103,4 +105,8 @@ def run_cases(run, modname, prop_key_prefix='', setup_pyx=False, engine='P', sel
                                   found_input=reproduced)
                 known = (k == 'known')
             run.oblig(oname, ok, eng if eng != 'P' else engine, be, dt, known=known)
+    if vacuous and not any_failed:
+        # a canary with a negated postcondition also "verifies" on a tree whose function is wrong for every input of the canary's case; that tree
+        # fails the real obligation of the same module (reported above as a violation) - only a quiet module with an unrefuted canary is vacuous
+        raise RuntimeError(f'canary {vacuous[0]} verified: harness is vacuous')
     return len(idxs)
